@@ -30,9 +30,13 @@ def float_identity(ctx, scenarios):
         mag = 1.0
         for i, (xs, y, n_over, upd) in enumerate(scf.stream):
             x = {nm: float(v) for nm, v in zip(env["names"], xs)}
-            kw = {} if n_over is None else {"n_inner_samples": n_over}
+            kw = {} if n_over in (None, "manual") else {"n_inner_samples": n_over}
             try:
-                vals = ex.explain_one(x, y, update_storage=upd, **kw)
+                if n_over == "manual":
+                    ex.update_storage(x, y)
+                    vals = ex.importance_values
+                else:
+                    vals = ex.explain_one(x, y, update_storage=upd, **kw)
             except Exception:
                 break
             tot = sum(float(v) for v in vals.values())
